@@ -32,11 +32,19 @@ fn conv_vector(a: &Alphabet, rng: &mut Rng, max_len: usize) -> Vec<Vec<u8>> {
             0..=2 if !a.flags.is_empty() => {
                 let n = rng.pick(&a.flags).clone();
                 let k = rng.below(n.shorts.len() + n.longs.len());
-                if k < n.shorts.len() {
-                    v.push(format!("-{}", n.shorts[k]).into_bytes());
+                let mut item = if k < n.shorts.len() {
+                    format!("-{}", n.shorts[k]).into_bytes()
                 } else {
-                    v.push(format!("--{}", n.longs[k - n.shorts.len()]).into_bytes());
+                    format!("--{}", n.longs[k - n.shorts.len()]).into_bytes()
+                };
+                // a flag takes no value: `--verbose=yes`, `-v=`
+                if rng.chance(1, 8) {
+                    item.push(b'=');
+                    if rng.chance(2, 3) {
+                        item.extend(value(rng));
+                    }
                 }
+                v.push(item);
             }
             3..=5 if !a.args.is_empty() => {
                 let n = rng.pick(&a.args).clone();
